@@ -215,6 +215,12 @@ Theorem C09_seq_oracle_sound : forall slow c ops obs,
 Proof. exact seq_oracle_sound. Qed.
 Print Assumptions C09_seq_oracle_sound.
 
+(* ... and its grouped form (a step standing for several operations in a known order). *)
+Theorem C09_seqg_oracle_sound : forall slow c steps obs,
+  seqg_oracle slow c steps obs = true <-> seqg_spec slow c steps obs.
+Proof. exact seqg_oracle_sound. Qed.
+Print Assumptions C09_seqg_oracle_sound.
+
 Theorem C09_any_oracle_sound : forall fl tl rr cr leak,
   any_oracle fl tl rr cr leak = true <-> any_spec fl tl rr cr leak.
 Proof. exact any_oracle_sound. Qed.
